@@ -79,6 +79,61 @@ theorem C15_body_complete (fmt : Int → Str) (ds : Dataset) (hds : ds.WF) (path
   · simp at h
   · simp at h
 
+/-! ### histories: several datasets in one process -/
+
+/-- **The answer depends only on the dataset and the request, not on what was served before**: in
+    every history of requests served by a process that holds any number of datasets, the answer to
+    the k-th request is the answer the same request gets as the first request of that process — and
+    that is the answer of the handler of the dataset it names, alone (`handle`, the per-request
+    model all other theorems are about) -/
+theorem C15_history_independent (fmt : Int → Str) (p : Proc) (reqs : List Req) (k : Nat) (r : Req)
+    (hk : reqs[k]? = some r) :
+    (run fmt p reqs)[k]? = some (serve fmt p r).1 ∧
+    (∀ h, p.handlers.find? (·.1 = r.target) = some h →
+      (run fmt p reqs)[k]? = some (some (handle fmt h.2 r.path r.query)) ∧
+      (serve fmt ⟨[h]⟩ r).1 = some (handle fmt h.2 r.path r.query)) := by
+  have hp : ∀ (p : Proc) (r : Req), (serve fmt p r).2 = p := by
+    intro p r; unfold serve; split <;> rfl
+  have main : ∀ (reqs : List Req) (k : Nat), reqs[k]? = some r → (run fmt p reqs)[k]? = some (serve fmt p r).1 := by
+    intro reqs
+    induction reqs with
+    | nil => intro k hk; simp at hk
+    | cons r0 rs ih =>
+      intro k hk
+      cases k with
+      | zero => simp at hk; subst hk; simp [run]
+      | succ k => simp at hk; simp [run, hp, ih k hk]
+  refine ⟨main reqs k hk, ?_⟩
+  intro h hh
+  have h1 : (serve fmt p r).1 = some (handle fmt h.2 r.path r.query) := by simp [serve, hh]
+  refine ⟨by rw [main reqs k hk, h1], ?_⟩
+  have ht : h.1 = r.target := by simpa using List.find?_some hh
+  simp [serve, ht]
+
+/-- **Every answer of every history is complete**: when all datasets of the process are well formed,
+    no request of any history lets an exception escape, and every 200 body — of the first dataset
+    served or of one served after any number of others — can be read to its end -/
+theorem C15_history_complete (fmt : Int → Str) (p : Proc) (hp : ∀ h ∈ p.handlers, h.2.WF)
+    (reqs : List Req) (o : Outcome) (ho : some o ∈ run fmt p reqs) :
+    (∀ e, o ≠ .escaped e) ∧ ∀ k body, o = .ok k body → ∃ text, body = .complete text := by
+  have hs : ∀ (p : Proc) (r : Req), (serve fmt p r).2 = p := by
+    intro p r; unfold serve; split <;> rfl
+  induction reqs with
+  | nil => simp [run] at ho
+  | cons r rs ih =>
+    simp only [run, hs, List.mem_cons] at ho
+    rcases ho with ho | ho
+    · unfold serve at ho
+      split at ho
+      · simp at ho
+      · rename_i h hh
+        simp only [Option.some.injEq] at ho
+        subst ho
+        have hw := hp h (List.mem_of_find?_eq_some hh)
+        exact ⟨C15_contained fmt h.2 r.path r.query,
+          fun k body hb => C15_body_complete fmt h.2 hw r.path r.query k body hb⟩
+    · exact ih ho
+
 /-- the constrained dataset of every request is well formed when the source is (the lemma the
     completeness theorem rests on, for every projection list and selection list) -/
 theorem C15_constrain_wf (ds cds : Dataset) (proj : List ProjItem) (sel : List Str) (hds : ds.WF)
